@@ -199,6 +199,12 @@ struct SimMutex {
 	uint32_t reg;    // registry index in the current run
 };
 
+// the same mutex with the optional try_lock() of the standard Lockable concept: code under test that detects the member
+// (requires-expression) takes its non-blocking path; fails exactly when the mutex is held (no spurious failures)
+struct SimTryMutex : SimMutex {
+	bool try_lock();
+};
+
 } // namespace sim
 
 extern "C" void frg_panic(const char *msg);
